@@ -186,6 +186,68 @@ def search(ck, tier, seed):
                             ck.finding("spline-tails:raises:%s:%s" % (tag, r2[1]), "K=%d B=%g params=%s, column-major inputs: %s" % (K, B, kind, r2[2]), case)
 
 
+def cubic_nearly_quadratic_bin(ck, tier, seed):
+    """cubic splines one of whose bins is (almost) a parabola: the left boundary derivative is solved, by bisection on the forward
+    map's third difference, so that the first bin's cubic coefficient vanishes while its quadratic one does not - the inverse then
+    takes its low-degree branch.  There, too, the inverse is increasing, stays in [left, right] and undoes the forward map."""
+    for K in (2, 3, 5):
+        for rep in range(2 if tier == "quick" else 6):
+            for box, B in (((0.0, 1.0, 0.0, 1.0), None), ((-2.0, 3.0, 1.0, 5.0), None), (None, 3.0)):
+                g = tgen(seed, "c09-nq", K, rep, str(box))
+                params = sh.gen_params("cubic", K, B is not None, "normal", g)
+                bx = box if box is not None else (-B, B, -B, B)
+                kn = sh.knots_x("cubic", params, bx)
+                x0, x1 = float(kn[0]), float(kn[1])
+                pts = torch.tensor([x0 + (x1 - x0) * f for f in (0.1, 0.35, 0.6, 0.85)], dtype=torch.float64)
+
+                def third(u):
+                    p_ = dict(params, unnorm_derivatives_left=torch.tensor([u], dtype=torch.float64))
+                    r_ = sh.call("cubic", False, pts, p_, box=box, tail_bound=B)
+                    if r_[0] != "ok":
+                        return None
+                    y_ = r_[1][0]
+                    return float(y_[3] - 3 * y_[2] + 3 * y_[1] - y_[0])
+                lo, hi = -8.0, 8.0
+                flo, fhi = third(lo), third(hi)
+                if flo is None or fhi is None or flo * fhi > 0:
+                    ck.count("nearly-quadratic: no sign change")
+                    continue
+                for _ in range(70):
+                    mid = 0.5 * (lo + hi)
+                    fm = third(mid)
+                    if fm is None:
+                        break
+                    if fm * flo <= 0:
+                        hi = mid
+                    else:
+                        lo, flo = mid, fm
+                params = dict(params, unnorm_derivatives_left=torch.tensor([0.5 * (lo + hi)], dtype=torch.float64))
+                xs = torch.linspace(x0, x1, 41, dtype=torch.float64)
+                f = sh.call("cubic", False, xs, params, box=box, tail_bound=B)
+                ck.case(("c09-nq", K, rep, str(box)), nontrivial=True)
+                if f[0] != "ok":
+                    continue
+                y = f[1][0]
+                curv = float((y[2] - 2 * y[1] + y[0]).abs())
+                if curv < 1e-9:
+                    ck.count("nearly-quadratic: the bin is a straight line")
+                    continue
+                case = {"search": "cubic-nearly-quadratic-bin", "K": K, "rep": rep, "box": box, "tail_bound": B, "seed": seed,
+                        "unnorm_derivatives_left": float(params["unnorm_derivatives_left"])}
+                b = sh.call("cubic", True, y, params, box=box, tail_bound=B)
+                if b[0] != "ok":
+                    ck.finding("spline:raises:cubic:inverse:%s" % b[1], "nearly quadratic first bin, K=%d: %s" % (K, b[2]), case)
+                    continue
+                xr = b[1][0]
+                tol_ = 1e-5 * (bx[1] - bx[0])
+                if bool(torch.isnan(xr).any()) or float((xr - xs).abs().max()) > tol_ or float(xr.min()) < bx[0] - tol_ or float(xr.max()) > bx[1] + tol_ \
+                        or bool(((xr[1:] - xr[:-1]) < -tol_).any()):
+                    i = int(torch.argmax((xr - xs).abs().nan_to_num(1e9)))
+                    ck.finding("spline:inverse-wrong-on-nearly-quadratic-bin:cubic",
+                               "K=%d box=%s tail_bound=%s, first bin a parabola (cubic coefficient solved to zero): f^-1(f(%r)) = %r; range of the inverse "
+                               "on the bin [%r, %r], the bin is [%r, %r]" % (K, box, B, float(xs[i]), float(xr[i]), float(xr.min()), float(xr.max()), x0, x1), case)
+
+
 def run(tier, seed):
     ck = Check("C09", tier, seed, areas=["splines"], gen_groups=["SplineRQ", "SplineLinear", "SplineQuadratic", "SplineCubic", "Utils"])
     ck.rule = ("four spline families x bin counts from 1 x boxes (incl. non-default) x parameter kinds (zeros, N(0,1), "
@@ -196,6 +258,8 @@ def run(tier, seed):
     if ck.have_driver("splines"):
         splines_corr.correspondence(ck, ck.driver("splines"), tier, seed)
     search(ck, tier, seed)
+    sh.module_double_inputs(ck, seed, "tails")
+    cubic_nearly_quadratic_bin(ck, tier, seed)
     return ck.finish()
 
 
